@@ -562,35 +562,66 @@ class RedlineEngine:
             unindexed_edits.sort(key=lambda x: len(x.target_text), reverse=True)
             self.mapper._build_map()
             for edit in unindexed_edits:
-                # Fix 5.6: Check for overlaps in heuristic path too
-                if edit.target_text:
-                    start_idx, match_len = self.mapper.find_match_index(edit.target_text)
-                    if start_idx != -1:
-                        end_idx = start_idx + match_len
-                        if any(start_idx < occ_end and end_idx > occ_start for occ_start, occ_end in occupied_ranges):
-                            logger.warning(f"Skipping overlapping heuristic edit at index {start_idx}")
-                            skipped += 1
-                            continue
-                        len_before = len(self.mapper.full_text)
-                        if self._apply_single_edit_heuristic(edit):
-                            applied += 1
-                            self.mapper._build_map()
-                            # Recorded ranges must stay in the coordinates of the rebuilt map:
-                            # everything behind this edit moved by the length of its markup.
-                            delta = len(self.mapper.full_text) - len_before
-                            occupied_ranges = [
-                                (s + delta, e + delta) if s >= end_idx else (s, e) for s, e in occupied_ranges
-                            ]
-                            occupied_ranges.append((start_idx, end_idx + delta))
-                        else:
-                            skipped += 1
-                        continue
+                # Conflicts are detected on the range the edit actually matches (raw or accepted
+                # view), translated to raw coordinates, inside _apply_single_edit_heuristic.
+                self._occupied_ranges = occupied_ranges
+                self._last_match_range = None
+                text_before = self.mapper.full_text
                 if self._apply_single_edit_heuristic(edit):
                     applied += 1
                     self.mapper._build_map()
+                    occupied_ranges = self._ranges_after_edit(
+                        occupied_ranges, self._last_match_range, text_before, self.mapper.full_text
+                    )
                 else:
                     skipped += 1
+            self._occupied_ranges = []
         return applied, skipped
+
+    @staticmethod
+    def _ranges_after_edit(
+        ranges: List[Tuple[int, int]], matched: Optional[Tuple[int, int]], before: str, after: str
+    ) -> List[Tuple[int, int]]:
+        """
+        Keeps the recorded ranges in the coordinates of the rebuilt map and records the region the
+        edit just applied occupies (its match plus the markup it produced).
+        """
+        limit = min(len(before), len(after))
+        lcp = 0
+        while lcp < limit and before[lcp] == after[lcp]:
+            lcp += 1
+        lcs = 0
+        while lcs < limit - lcp and before[len(before) - 1 - lcs] == after[len(after) - 1 - lcs]:
+            lcs += 1
+        delta = len(after) - len(before)
+        lo, old_hi = lcp, len(before) - lcs
+        if matched is not None:
+            lo, old_hi = min(lo, matched[0]), max(old_hi, matched[1])
+        shifted = [(s + delta, e + delta) if s >= old_hi else (s, e) for s, e in ranges]
+        shifted.append((lo, old_hi + delta))
+        return shifted
+
+    def _to_raw_range(self, mapper: DocumentMapper, start_idx: int, end_idx: int) -> Optional[Tuple[int, int]]:
+        """Translates a range of `mapper` (possibly the accepted view) into raw-map coordinates via the runs."""
+        if mapper is self.mapper:
+            return start_idx, end_idx
+        real = [s for s in mapper.spans if s.run is not None and s.end > start_idx and s.start < end_idx]
+        if not real:
+            return None
+
+        def raw_pos(span, pos: int) -> Optional[int]:
+            offset = mapper._offset_in_run(span) + max(0, min(pos, span.end) - span.start)
+            for rs in self.mapper.spans:
+                if rs.run is not None and rs.run._element is span.run._element:
+                    if offset <= len(rs.text):
+                        return rs.start + offset
+                    offset -= len(rs.text)
+            return None
+
+        lo, hi = raw_pos(real[0], start_idx), raw_pos(real[-1], end_idx)
+        if lo is None or hi is None:
+            return None
+        return lo, max(lo, hi)
 
     def _apply_single_edit_heuristic(self, edit: DocumentEdit) -> bool:
         if not edit.target_text:
@@ -630,6 +661,14 @@ class RedlineEngine:
             active_mapper = self.clean_mapper
         else:
             active_mapper = self.mapper
+
+        raw_range = self._to_raw_range(active_mapper, start_idx, start_idx + match_len)
+        if raw_range is not None:
+            occupied = getattr(self, "_occupied_ranges", [])
+            if any(raw_range[0] < occ_end and raw_range[1] > occ_start for occ_start, occ_end in occupied):
+                logger.warning(f"Skipping overlapping heuristic edit at index {raw_range[0]}")
+                return False
+        self._last_match_range = raw_range
 
         # --- HEURISTIC NESTED EDIT FIX ---
         context_span = active_mapper.get_context_at_range(start_idx, start_idx + match_len)
